@@ -165,6 +165,12 @@ def handle : Handler := fun j a => do
       for e in trace do
         let w' := w.applyEv master e
         let na := invA reach w'
+        -- C11: a host marked for recovery is never in a published list (unless it is the recorded master)
+        match e.call with
+        | .publish l =>
+          if e.ok && l.any (fun h => h != master && recovery.contains h) && dcsFail != "recovery" then
+            a := a.violationSig "C11:marked-host-in-published-active-list" s!"published {l}, marked {recovery} in {j.compress}"
+        | _ => pure ()
         let nb := !cfg.semiSync || invB cfg w'
         if okA && !na then
           let sig := match e.call with
@@ -201,7 +207,10 @@ def handle : Handler := fun j a => do
         if !invB cfg w then
           if !ch.dataLag.isEmpty && effWait w ≥ req cfg (filterOut w.published ch.dataLag) then
             a := a.violationSig "C04:B:published-list-counts-a-data-lagging-replica-the-master-does-not-wait-for" j.compress
-          else a := a.violationSig "C04:complete-iteration-leaves-B-broken:other" j.compress
+          else
+            a := a.violationSig "C04:complete-iteration-leaves-B-broken:other" j.compress
+            -- the same fact is C10's clause "bring the master … to the semi-sync setting implied by the active list"
+            a := a.violationSig "C10:master-not-brought-to-the-semi-sync-setting-implied-by-the-active-list" j.compress
       a := a.note (!trace.isEmpty)
       a := a.tag (if cfg.semiSync then "c04:semisync" else "c04:async")
       a := if !ch.becomeActive.isEmpty then a.tag "c04:become-active" else a
